@@ -7,7 +7,11 @@ from props.engcommon import EngProp
 
 def themed_case(rng, g: EGen, tier):
     """one record set + one query; returns (recs, oracle coq, sel, pipe, kinds)"""
-    theme = rng.choice(["plain", "plain", "json", "json", "logfmt", "ip", "attrs", "attrs", "mixed", "distinct", "distinct2", "rewrite", "rewrite", "decolor", "unpack", "binary", "nan"])
+    theme = rng.choice(["plain", "plain", "json", "json", "logfmt", "ip", "attrs", "attrs", "mixed", "distinct", "distinct2", "rewrite", "rewrite", "decolor", "unpack", "binary", "nan", "substr", "ipbound"])
+    if theme == "substr":
+        return substr_case(rng, g)
+    if theme == "ipbound":
+        return ipbound_case(rng, g)
     if theme in ("distinct2", "rewrite", "decolor", "unpack"):
         return special_case(rng, g, theme)
     if theme == "nan":
@@ -101,6 +105,69 @@ def themed_case(rng, g: EGen, tier):
     sel = g.selector()
     pipe = g.disambiguate(pipe)
     return recs, oracles_coq(jsonl=dedup(jsonl), logfmt=dedup(lfl), decolor=deco), sel, pipe, theme
+
+
+def substr_case(rng, g: EGen):
+    """string matchers on labels compare the WHOLE value (= / != are equality, not containment), on lines they test containment:
+    label values that contain, start with, end with or extend the matcher's value"""
+    fam = rng.choice([("env", ["prod", "production", "nonprod", "pro", "dev", "prod "]), ("status", ["5", "500", "5.0", "50", "05", ""]), ("app", ["web", "web1", "aweb", "we", "", "WEB"])])
+    l, pool = fam
+    n = rng.randint(2, 8)
+    recs = g.records([rng.choice(egen.PLAIN_LINES[:8] + pool) for _ in range(n)], with_attrs=False)
+    for r in recs:
+        if rng.random() < 0.85:
+            r["attrs"] = [(l, rng.choice(pool))]
+    def m(op, v):
+        return {"l": l, "op": op, "v": v, "k": "m", "coq": "em %s %s" % (cbytes(B(l)), egen.sm_coq(op, v)), "sm": egen.sm_coq(op, v)}
+    sel = g.selector(extra=False)
+    pipe = []
+    v = rng.choice(pool)
+    op = rng.choice(["=", "!=", "!="])
+    where = rng.randrange(3)
+    if where == 0:
+        sel.append(m(op, v))
+        rng.shuffle(sel)
+    else:
+        leaf = {"k": "m", "l": l, "op": op, "v": v, "coq": "EPMatch %s %s" % (cbytes(B(l)), egen.sm_coq(op, v)), "pure": True}
+        if where == 2:
+            v2 = rng.choice(pool)
+            op2 = rng.choice(["=", "!="])
+            leaf2 = {"k": "m", "l": l, "op": op2, "v": v2, "coq": "EPMatch %s %s" % (cbytes(B(l)), egen.sm_coq(op2, v2)), "pure": True}
+            bop = rng.choice(["and", "or"])
+            leaf = {"k": "bin", "op": bop, "a": leaf, "b": leaf2, "coq": "%s (%s) (%s)" % ("EPAnd" if bop == "and" else "EPOr", leaf["coq"], leaf2["coq"])}
+        pipe.append({"k": "filter", "p": leaf, "coq": "ELabelFilter (%s)" % leaf["coq"]})
+    if rng.random() < 0.4:
+        pipe.append(g.line_filter(op=rng.choice(["=", "!="]), needle=rng.choice(pool)))
+    return recs, oracles_coq(), sel, g.disambiguate(pipe), "substr"
+
+
+def ipbound_case(rng, g: EGen):
+    """ip() ranges and prefixes contain their first and last address and nothing just outside them"""
+    f = lambda n: "%d.%d.%d.%d" % (n >> 24, (n >> 16) & 255, (n >> 8) & 255, n & 255)
+    if rng.random() < 0.5:
+        lo = egen.ip_to_int(rng.choice(egen.ADDRS))
+        hi = lo + rng.choice([0, 1, 5, 255, 70000])
+        txt, coq = "%s-%s" % (f(lo), f(hi)), "(IPRange %d %d)" % (lo, hi)
+    else:
+        bits = rng.choice([8, 16, 24, 30, 31, 32])
+        a = egen.ip_to_int(rng.choice(egen.ADDRS))
+        lo = a & ~((1 << (32 - bits)) - 1)
+        hi = lo | ((1 << (32 - bits)) - 1)
+        txt, coq = "%s/%d" % (f(a), bits), "(IPPrefix %d %d)" % (a, bits)
+    pts = [lo, hi, lo - 1, hi + 1, (lo + hi) // 2, lo + 1, hi - 1]
+    n = rng.randint(2, 8)
+    addrs = [f(rng.choice(pts) & 0xFFFFFFFF) for _ in range(n)]
+    recs = g.records([rng.choice(["peer %s:80", "%s", "from %s", "x %s y"]) % a for a in addrs], with_attrs=False)
+    for r, a in zip(recs, addrs):
+        if rng.random() < 0.8:
+            r["attrs"] = [("addr", a)]
+    op = rng.choice(["=", "!="])
+    if rng.random() < 0.5:
+        pipe = [{"k": "line", "op": op, "v": txt, "ip": True, "pat_coq": coq, "coq": "ELineIP %s %s" % (egen.cbool(op == "!="), coq)}]
+    else:
+        p = {"k": "ip", "l": "addr", "op": op, "v": txt, "coq": "EPIP %s %s %s" % (cbytes(B("addr")), egen.cbool(op == "!="), coq)}
+        pipe = [{"k": "filter", "p": p, "coq": "ELabelFilter (%s)" % p["coq"]}]
+    return recs, oracles_coq(), g.selector(extra=False), pipe, "ipbound"
 
 
 def nan_case(rng, g: EGen):
@@ -231,7 +298,7 @@ special_case.expect = None
 class P(EngProp):
     id = "C01"
     rule = ("one record set (0-9 records; themes: plain text, JSON objects incl. malformed/truncated, logfmt incl. malformed, lines with IPv4 addresses, attribute-only, "
-            "binary bytes, distinct, line_format) and one grammar-derived query (selector with =,!=,=~,!~ over present/absent labels; 0-6 stages: line filters incl. ip(), "
+            "binary bytes, distinct, line_format, label values that contain/extend a matcher value, addresses at and just outside the bounds of ip() ranges and prefixes) and one grammar-derived query (selector with =,!=,=~,!~ over present/absent labels; 0-6 stages: line filters incl. ip(), "
             "label filters string/number/duration/bytes/ip with and/or/parentheses, json/logfmt parsers, distinct, drop/keep, line_format) evaluated under the four extreme "
             "capability sets and one random one; observed results must (a) all be equal, (b) equal Spec.LogSpec.spec_select (per-record reading; distinct-free queries), "
             "(c) equal the faithful model. Non-trivial = at least 2 records; distinct = distinct (records, query).")
